@@ -41,6 +41,7 @@ class Ctx(object):
         self.alias = {}                             # local name -> canonical operator expression (string)
         self.spaces = {}                            # local name -> canonical space expression
         self.sdefs = {}                             # scalar local -> defining expression (inlined)
+        self.loop_scalars = set(cfg.get('loop_scalars', ()))   # scalars recomputed in every iteration (parameters)
         self.normdefs = {}                          # scalar local d -> vector name v  for  d = -v.norm() ** 2
         self.ranges = {}                            # rng -> 'range(length)'
         self.pre, self.body = [], None
@@ -245,6 +246,8 @@ def scalar_rhs_ok(ctx, v):
         return all(scalar_rhs_ok(ctx, x) for x in v.elts)
     if isinstance(v, ast.Name):
         return v.id in ctx.scalars
+    if isinstance(v, ast.Constant) and isinstance(v.value, (int, float)) and not isinstance(v.value, bool):
+        return True
     if isinstance(v, ast.Call) and isinstance(v.func, ast.Name) and v.func.id in ('float', 'int') \
             and len(v.args) == 1 and isinstance(v.args[0], ast.Name) and v.args[0].id in ctx.scalars:
         return True
@@ -259,6 +262,21 @@ def scalar_rhs_ok(ctx, v):
     if isinstance(v, ast.IfExp) and isinstance(v.body, ast.Name) and v.body.id in ctx.scalars \
             and isinstance(v.orelse, ast.Lambda):
         return True
+    return False
+
+
+def scalar_only(ctx, v):
+    """expression built from loop scalars, numbers, + - * / ** and np.sqrt only"""
+    if isinstance(v, ast.Tuple):
+        return all(scalar_only(ctx, e) for e in v.elts)
+    if isinstance(v, ast.Constant):
+        return isinstance(v.value, (int, float)) and not isinstance(v.value, bool)
+    if isinstance(v, ast.Name):
+        return v.id in ctx.loop_scalars
+    if isinstance(v, ast.BinOp) and isinstance(v.op, (ast.Add, ast.Sub, ast.Mult, ast.Div, ast.Pow)):
+        return scalar_only(ctx, v.left) and scalar_only(ctx, v.right)
+    if isinstance(v, ast.Call) and ast.unparse(v.func) == 'np.sqrt' and len(v.args) == 1 and not v.keywords:
+        return scalar_only(ctx, v.args[0])
     return False
 
 
@@ -391,6 +409,10 @@ def stmt(ctx, s, out, depth):
                 if len(ids) == 1 and isinstance(v, ast.Call) and isinstance(v.func, ast.Name) \
                         and v.func.id in ctx.scalars and len(v.args) == 1 and isinstance(v.args[0], ast.Name) \
                         and v.args[0].id == ctx.loopvar:
+                    return
+                # t, t_old = (1 + np.sqrt(1 + 4 * t ** 2)) / 2, t   |   alpha = (t_old - 1) / t :
+                # a purely scalar recursion over configured loop scalars; its values are parameters
+                if all(i in ctx.loop_scalars for i in ids) and scalar_only(ctx, v):
                     return
                 if len(ids) == 1 and is_scalar(ctx, v):
                     ctx.sdefs[ids[0]] = pick(ctx, v)
@@ -533,6 +555,10 @@ CONFIG = {
     'proximal_gradient': dict(
         file=N + 'proximal_gradient_solvers.py', scalars=['gamma', 'gamma_in', 'niter', 'lam', 'lam_in', 'lam_k'],
         vectors=['x'], operators=['f', 'g'], flags={'callback is not None': True}),
+    'accelerated_proximal_gradient': dict(
+        file=N + 'proximal_gradient_solvers.py', scalars=['gamma', 'gamma_in', 'niter', 't', 't_old', 'alpha'],
+        vectors=['x'], operators=['f', 'g'], flags={'callback is not None': True},
+        loop_scalars=['t', 't_old', 'alpha']),
     'dca': dict(
         file=N + 'difference_convex.py', scalars=['niter'], vectors=['x'], operators=['f', 'g'],
         flags={'callback is not None': True}),
